@@ -283,6 +283,86 @@ func (e *c10Engine) runWith(p c10Prog, data any) (out string, errs string, dataC
 	return buf.String(), errs, dataChanged
 }
 
+// one long-lived template made by vuego.New() - no file system, nothing filled in - serving requests through New():
+// what one request assigns, and what a template assigns at its root scope while it renders, belongs to that request
+func c10BareEngine(r *Run) {
+	rr := r.Rng
+	progs := []string{
+		`<p>hello {{ user }} {{ who }}</p>`,
+		`<template :n="n + 1"></template><p>{{ n }}</p>`,
+		`<template user="tpl-user" :k="who"></template><i>{{ user }}|{{ k }}</i>`,
+		`<ul><li v-for="x in xs">{{ x }}{{ user }}</li></ul><b v-if="user">u</b><b v-else>none</b>`,
+		`<template v-if="who" :seen="1"></template><u>{{ seen }}{{ n }}</u>`,
+	}
+	render := func(t vuego.Template, src string) string {
+		var buf bytes.Buffer
+		var err error
+		func() {
+			defer func() {
+				if x := recover(); x != nil {
+					err = fmt.Errorf("PANIC %v", x)
+				}
+			}()
+			err = t.RenderString(context.Background(), &buf, src)
+		}()
+		return buf.String() + "|err=" + fmt.Sprint(err)
+	}
+	type step struct {
+		assign map[string]any
+		direct bool // assign and render on the long-lived template itself (twice), not on a New() of it
+		src    string
+	}
+	n := 150
+	if r.Thorough() {
+		n = 3000
+	}
+	for c := 0; c < n; c++ {
+		base := vuego.New()
+		var hist []string
+		carried := map[string]any{} // what was assigned on the base itself stays there: that is the caller's doing
+		for i, k := 0, 2+rr.Intn(5); i < k; i++ {
+			st := step{assign: map[string]any{}, src: Pick(rr, progs), direct: rr.Intn(4) == 0}
+			for _, key := range []string{"user", "who", "n", "xs"} {
+				if rr.Intn(3) == 0 {
+					st.assign[key] = map[string]any{"user": fmt.Sprintf("u%d", i), "who": fmt.Sprintf("w%d", i), "n": i, "xs": []any{i, i + 1}}[key]
+				}
+			}
+			hist = append(hist, fmt.Sprintf("%v assign=%v %s", map[bool]string{true: "on the template itself", false: "on New()"}[st.direct], st.assign, st.src))
+			fresh := vuego.New()
+			for k, v := range carried {
+				fresh.Assign(k, v)
+			}
+			var got, want []string
+			if st.direct {
+				for k, v := range st.assign {
+					base.Assign(k, v)
+					fresh.Assign(k, v)
+					carried[k] = v
+				}
+				got = []string{render(base, st.src), render(base, st.src)}
+				want = []string{render(fresh, st.src), render(fresh, st.src)}
+				if want[0] != want[1] {
+					want[1] = want[0] // a second render of the same program prints the same bytes
+				}
+			} else {
+				a, b := base.New(), fresh.New()
+				for k, v := range st.assign {
+					a.Assign(k, v)
+					b.Assign(k, v)
+				}
+				got, want = []string{render(a, st.src)}, []string{render(b, st.src)}
+			}
+			r.Eval(fmt.Sprintf("bare:%d:%d", c, i), i > 0, nil)
+			r.Count("stream:bare-engine(oracle only)")
+			if strings.Join(got, "\n") != strings.Join(want, "\n") {
+				r.Fail("a long-lived engine made by New() renders differently from a fresh one", map[string]string{"oracle": "bare-engine", "kind": "oracle"},
+					map[string]any{"history": append([]string{}, hist...), "long_lived": got, "fresh": want})
+				break
+			}
+		}
+	}
+}
+
 func init() { streams["C10"] = runC10 }
 
 func runC10(r *Run) {
@@ -292,6 +372,7 @@ func runC10(r *Run) {
 	r.Assume("this stream compares the implementation with itself (bytes); the Coq model contributes the order-independence and pool theorems and the regenerated table of map-iteration sites")
 	c10LookAlike(r)
 	c10FileEdits(r)
+	c10BareEngine(r)
 	progs := c10Catalogue()
 	ref := map[string][2]string{}
 	for _, p := range progs {
